@@ -192,10 +192,11 @@ def return_paths(f):
 # ---------------------------------------------------------------- effect paths
 
 class EPath:
-    def __init__(self, conds, events, end):
+    def __init__(self, conds, events, end, ret=None):
         self.conds = conds
         self.events = events   # list of nodes (or ('loop', node, [EPath...]) tuples)
         self.end = end         # 'end' | 'return' | 'break' | 'continue' | 'diverge'
+        self.ret = ret         # returned expression ('return') / last statement executed ('end')
 
     def cond_texts(self):
         return Path(self.conds, None, 'tail', {}).cond_texts()
@@ -216,11 +217,11 @@ def effect_paths(stmts, is_event, max_paths=20000):
     def atom_events(e):
         return [n for n in hir.nodes(e, into_closures=False) if is_event(n)]
 
-    def seq(stmts, conds, events):
+    def seq(stmts, conds, events, last=None):
         if len(out) > max_paths:
             raise RuntimeError('too many paths')
         if not stmts:
-            out.append(EPath(conds, events, 'end'))
+            out.append(EPath(conds, events, 'end', last))
             return
         s = stmts[0]
         rest = stmts[1:]
@@ -231,18 +232,18 @@ def effect_paths(stmts, is_event, max_paths=20000):
                 i0 = hir.strip(init)
                 if i0.get('k') in ('If', 'Match', 'Block', 'Labeled') and has_interest(i0):
                     # explore the initialiser structurally, then continue
-                    return seq([i0] + ([{'k': '_LetElse', 'els': s['els'], 'pat': s['pat'], 'init': init}] if s.get('els') else []) + rest, conds, events)
+                    return seq([i0] + ([{'k': '_LetElse', 'els': s['els'], 'pat': s['pat'], 'init': init}] if s.get('els') else []) + rest, conds, events, last)
                 events = events + atom_events(init)
                 if s.get('els'):
-                    seq(hir.stmts_of(s['els']), conds + [('nopat', [s['pat']], init)], events)
+                    seq(hir.stmts_of(s['els']), conds + [('nopat', [s['pat']], init)], events, last)
                     conds = conds + [('pat', s['pat'], init, True)]
-            return seq(rest, conds, events)
+            return seq(rest, conds, events, s)
         if k == '_LetElse':
-            seq(hir.stmts_of(s['els']), conds + [('nopat', [s['pat']], s['init'])], events)
-            return seq(rest, conds + [('pat', s['pat'], s['init'], True)], events)
+            seq(hir.stmts_of(s['els']), conds + [('nopat', [s['pat']], s['init'])], events, last)
+            return seq(rest, conds + [('pat', s['pat'], s['init'], True)], events, last)
         if k == 'Ret':
             ev = events + (atom_events(s['e']) if s.get('e') else [])
-            out.append(EPath(conds, ev, 'return'))
+            out.append(EPath(conds, ev, 'return', s.get('e')))
             return
         if k == 'Break':
             out.append(EPath(conds, events, 'break'))
@@ -253,9 +254,9 @@ def effect_paths(stmts, is_event, max_paths=20000):
         if k == 'If':
             cev = atom_events(s['cond'])
             for alt in _split_cond(s['cond'], True):
-                seq(hir.stmts_of(s['then']) + rest, conds + alt, events + cev)
+                seq(hir.stmts_of(s['then']) + rest, conds + alt, events + cev, s)
             for alt in _split_cond(s['cond'], False):
-                seq((hir.stmts_of(s['else']) if s.get('else') else []) + rest, conds + alt, events + cev)
+                seq((hir.stmts_of(s['else']) if s.get('else') else []) + rest, conds + alt, events + cev, s)
             return
         if k == 'Match':
             sev = atom_events(s['scrut'])
@@ -267,32 +268,33 @@ def effect_paths(stmts, is_event, max_paths=20000):
                 c.append(('pat', a['pat'], s['scrut'], True))
                 if a.get('guard'):
                     for alt in _split_cond(a['guard'], True):
-                        seq(hir.stmts_of(a['body']) + rest, c + alt, events + sev)
+                        seq(hir.stmts_of(a['body']) + rest, c + alt, events + sev, s)
                 else:
-                    seq(hir.stmts_of(a['body']) + rest, c, events + sev)
+                    seq(hir.stmts_of(a['body']) + rest, c, events + sev, s)
                     prev.append(a['pat'])
             return
         if k in ('Block', 'Labeled'):
             b = s if k == 'Block' else s['body']
-            return seq(hir.stmts_of(b) + rest, conds, events)
+            return seq(hir.stmts_of(b) + rest, conds, events, last)
         if k in ('For', 'While', 'Loop'):
             inner = effect_paths(hir.stmts_of(s['body']), is_event, max_paths)
             head = atom_events(s['iter']) if k == 'For' else (atom_events(s['cond']) if k == 'While' else [])
             ev = events + head
+            loop_ev = []
             if any(p.events for p in inner) or any(p.end in ('return', 'diverge') for p in inner):
-                ev = ev + [('loop', s, inner)]
+                loop_ev = [('loop', s, inner)]
             # returns inside the loop body end the enclosing function too
             for p in inner:
                 if p.end == 'return':
-                    out.append(EPath(conds + [('loop', s)] + p.conds, ev[:-1] + p.events if ev and isinstance(ev[-1], tuple) else ev + p.events, 'return'))
-            return seq(rest, conds + [('after', s)], ev)
+                    out.append(EPath(conds + [('loop', s)] + p.conds, ev + p.events, 'return', p.ret))
+            return seq(rest, conds + [('after', s)], ev + loop_ev, s)
         if hir.diverges(s) or (s.get('ty') == '!'):
-            out.append(EPath(conds, events + atom_events(s), 'diverge'))
+            out.append(EPath(conds, events + atom_events(s), 'diverge', s))
             return
         s0 = hir.strip(s)
         if s0.get('k') in ('If', 'Match', 'Block') and s0 is not s:
-            return seq([s0] + rest, conds, events)
-        return seq(rest, conds, events + atom_events(s))
+            return seq([s0] + rest, conds, events, last)
+        return seq(rest, conds, events + atom_events(s), s)
 
     seq(list(stmts), [], [])
     return out
